@@ -15,7 +15,7 @@ RULE = ("(unroll) seeded acyclic circuits x injective output->input pairings x n
         "evaluated bit-parallel; distinct = canonical net + configuration; non-trivial = some observed output at the "
         "last step depends on a step-0 signal through the state")
 PROBES = ["n=1", "state_output_is_primary_input", "flop_feeds_flop", "initial:None", "initial:0", "initial:1",
-          "initial:dict", "add_flop_outputs", "remove_unloaded", "keep_unloaded", "unroll", "sequential", "ignore_pins", "repeated_call_same_objects"]
+          "initial:dict", "add_flop_outputs", "remove_unloaded", "keep_unloaded", "unroll", "sequential", "ignore_pins", "repeated_call_same_objects", "net_named_like_a_live_pin"]
 ASSUMPTIONS = ["<= 14 free bits in total (state + n x inputs), <= 4 state bits, n <= 6 mostly and 10-12 in a tenth of the runs"]
 TIME_UNIT = "circuit clock cycles executed by the reference state machine"
 
@@ -78,16 +78,33 @@ def gen(rng, tier):
         qbuf = [n for n, v in nodes.items() if v[1] == [f"{a}.q"]]
         if qbuf:
             nodes[f"{b}.d"][1] = [qbuf[0]]
+    ignore = rng.choice((None, [p for p in pins_in if p != "d"], "clk"))
+    if "clk" not in pins_in and ignore == "clk":
+        ignore = None
+    ignored = [] if ignore is None else ([ignore] if isinstance(ignore, str) else list(ignore))
     if rng.random() < 0.3:
         # ordinary nets named like the io that the flop pins turn into: <stem>_<pin> (sys_clk, div2_q, n_rst ...)
         plain = [n for n in nodes if "." not in n and not n.endswith("_in")]
         mp = {}
         for n in rng.sample(plain, min(len(plain), rng.randint(1, 2))):
             new = f"{rng.choice(('sys', 'n', 'div2', 'x'))}_{rng.choice(pins_in + ['q'])}"
-            if new not in nodes and new not in mp.values() and new.split('_')[0] not in insts:
+            if ignored and rng.random() < 0.4:
+                # ... or exactly <flop>_<pin> for a pin that is IGNORED: no io of that name is ever created, so the
+                # net (`ff0_clk`, a common netlist naming style) is an ordinary node that must survive
+                new = f"{rng.choice(insts)}_{rng.choice(ignored)}"
+            if new not in nodes and new not in mp.values() and (new.split('_')[0] not in insts or new.split('_', 1)[1] in ignored):
                 mp[n] = new
         net = G.rename(net, mp)
         nodes = net["nodes"]
+    elif rng.random() < 0.05:
+        # the very common netlist style `dff ff0(.d(ff0_d), .q(ff0_q))`: a net called <flop>_<pin> for a pin that is
+        # NOT ignored (known finding KF-C09-1: strip_blackboxes refuses such circuits)
+        plain = [n for n in nodes if "." not in n and not n.endswith("_in")]
+        live = [p for p in pins_in + ["q"] if p not in ignored]
+        new = f"{rng.choice(insts)}_{rng.choice(live)}"
+        if plain and new not in nodes:
+            net = G.rename(net, {rng.choice(plain): new})
+            nodes = net["nodes"]
     if rng.random() < 0.2:
         # instance names and net names are separate namespaces: a flop may be called like a primary input or output
         # (a registered output `r` driven by flop instance `r`)
@@ -105,7 +122,7 @@ def gen(rng, tier):
     if iv == "dict":
         iv = {i: rng.choice(("0", "1")) for i in insts if rng.random() < 0.7}
     return {"kind": "sequential", "net": net, "n": rng.randint(10, 12) if rng.random() < 0.1 else rng.randint(1, 5), "d": "d", "q": "q",
-            "ignore_pins": rng.choice((None, [p for p in pins_in if p != "d"], "clk")),
+            "ignore_pins": ignore,
             "add_flop_outputs": rng.random() < 0.5, "initial_values": iv, "remove_unloaded": rng.random() < 0.6,
             "repeat_first": rng.random() < 0.35,
             "peer": {"seed": rng.getrandbits(32)}}
@@ -243,6 +260,16 @@ def run(case, ctx):
            "add_flop_outputs": case["add_flop_outputs"], "remove_unloaded": case["remove_unloaded"]}
     iv_obj = iv if iv is None or isinstance(iv, str) else dict(iv)
     ip_obj = list(case["ignore_pins"]) if isinstance(case["ignore_pins"], list) else case["ignore_pins"]
+    ign = [] if not ip_obj else ([ip_obj] if isinstance(ip_obj, str) else list(ip_obj))
+    pin_named = sorted(f"{i}_{p}" for i in insts for p in pin_in + pin_out if p not in ign and f"{i}_{p}" in nodes)
+    if pin_named:
+        ctx.probe("net_named_like_a_live_pin")
+        try:
+            cg.tx.strip_blackboxes(c, ignore_pins=ip_obj)
+        except ValueError as e:
+            if "Overlapping blackbox name" in str(e):
+                ctx.violate("C09.name_overlap", f"a net of the circuit is called {pin_named[0]} (<flop>_<pin>): sequential_unroll "
+                            f"cannot even strip the flops: {e}", {"kind": "sequential", "pin_named_net": True, "exc": "ValueError"})
     repeat_first = bool(case.get("repeat_first"))
     if repeat_first:
         # history: an earlier call (shallower unrolling) made with the very same argument objects, as in a
@@ -270,6 +297,8 @@ def run(case, ctx):
     for nm in us["nodes"]:
         for inst in insts:
             for p in pin_in + pin_out:
+                if p not in (d, q) and f"{inst}_{p}" in nodes:
+                    continue     # an ordinary net of the circuit that happens to be called <flop>_<pin>
                 if p not in (d, q) and (f"{inst}_{p}_" in nm or nm.endswith(f"{inst}_{p}") or f"{inst}.{p}" in nm):
                     ctx.violate("C09.pins_left", f"a non-data pin survived: node {nm}", sig)
     free_names = [io_map[qn[inst]][0] for inst in free_state] + [io_map[i][t] for t in range(n) for i in kept_in]
